@@ -33,6 +33,12 @@ type Connection struct {
 
 	// Used to buffer decrypted bytes which were not read yet
 	readBuffer *bytes.Buffer
+
+	// Notifications must not be written into the middle of a response.
+	// They are held back while a request is handled and written afterwards.
+	notifyMutex   sync.Mutex
+	handling      bool
+	notifications [][]byte
 }
 
 // NewConnection returns a hap connection.
@@ -131,6 +137,36 @@ func (con *Connection) peekFrame() ([]byte, error) {
 
 	length := 2 + int(binary.LittleEndian.Uint16(header)) + 16
 	return con.buffered.Peek(length)
+}
+
+// SetHandlingRequest tells the connection whether a request is being handled, which is
+// from the moment it arrives until the response is written completely.
+// When handling ends, the notifications which were held back are written.
+func (con *Connection) SetHandlingRequest(handling bool) {
+	con.notifyMutex.Lock()
+	defer con.notifyMutex.Unlock()
+
+	con.handling = handling
+	if handling == false {
+		for _, b := range con.notifications {
+			con.Write(b)
+		}
+		con.notifications = nil
+	}
+}
+
+// WriteNotification writes a notification (EVENT message) to the connection.
+// While a request is handled, the notification is held back until the response is written.
+func (con *Connection) WriteNotification(b []byte) (int, error) {
+	con.notifyMutex.Lock()
+	defer con.notifyMutex.Unlock()
+
+	if con.handling {
+		con.notifications = append(con.notifications, append([]byte{}, b...))
+		return len(b), nil
+	}
+
+	return con.Write(b)
 }
 
 // Write writes bytes to the connection.
